@@ -5,6 +5,7 @@ package prog
 
 import (
 	"bytes"
+	"context"
 	"encoding/hex"
 	"fmt"
 	"os"
@@ -14,6 +15,7 @@ import (
 	"strings"
 	"sync"
 	"testing"
+	"time"
 
 	"github.com/bytemare/secp256k1/verifharness/gen"
 	"github.com/bytemare/secp256k1/verifharness/ref"
@@ -33,6 +35,9 @@ type caseC17 struct {
 	// Wrap: the program re-registers SHA-256 in the crypto registry with a correct implementation that exposes
 	// only the hash.Hash methods (as an instrumented or third-party implementation would).
 	Wrap bool `json:"wrap,omitempty"`
+	// Rejected: before the real call the program makes this many calls with an empty DST and recovers from the
+	// documented panic (a server rejecting bad requests): hashing must still work afterwards.
+	Rejected int `json:"rejected,omitempty"`
 }
 
 var importPool = []string{"fmt", "os", "strings", "encoding/hex", "math/big", "crypto/rand", "crypto/sha512", "crypto/md5", "hash/fnv",
@@ -96,9 +101,24 @@ import (
 	secp "github.com/bytemare/secp256k1"
 %s)
 
+func reject(fn string) {
+	defer func() { _ = recover() }()
+	switch fn {
+	case "HashToGroup":
+		secp.HashToGroup([]byte("m"), nil)
+	case "EncodeToGroup":
+		secp.EncodeToGroup([]byte("m"), []byte{})
+	default:
+		secp.HashToScalar(nil, nil)
+	}
+}
+
 func main() {
 	msg := []byte{%s}
 	dst := []byte{%s}
+	for i := 0; i < %d; i++ {
+		reject([]string{"HashToGroup", "EncodeToGroup", "HashToScalar"}[i%%3])
+	}
 	var out []byte
 	switch %q {
 	case "HashToGroup":
@@ -138,7 +158,8 @@ func runC17(c caseC17, o *gen.Obs) error {
 	o.ClassIf(!otherLinks, "sha256-not-linked-by-others")
 	o.ClassIf(otherLinks, "sha256-linked-by-others")
 	o.ClassIf(c.Wrap, "registry-replaced")
-	o.NonTrivialIf(!otherLinks || c.Wrap)
+	o.ClassIf(c.Rejected > 0, "after-rejected-calls")
+	o.NonTrivialIf(!otherLinks || c.Wrap || c.Rejected > 0)
 
 	dir, err := os.MkdirTemp("", "verif-c17-")
 	if err != nil {
@@ -149,7 +170,7 @@ func runC17(c caseC17, o *gen.Obs) error {
 	for _, p := range imports {
 		fmt.Fprintf(&imp, "\t_ %q\n", p)
 	}
-	src := fmt.Sprintf(mainTemplate, imp.String(), byteList(msg), byteList(dst), c.Fn)
+	src := fmt.Sprintf(mainTemplate, imp.String(), byteList(msg), byteList(dst), c.Rejected, c.Fn)
 	gomod := fmt.Sprintf("module verifprog\n\ngo 1.22.2\n\nrequire github.com/bytemare/secp256k1 v0.0.0\n\nreplace github.com/bytemare/secp256k1 => %s\n", repoDir())
 	if err := os.WriteFile(filepath.Join(dir, "main.go"), []byte(src), 0o644); err != nil {
 		return &gen.Inconclusive{Msg: err.Error()}
@@ -168,10 +189,16 @@ func runC17(c caseC17, o *gen.Obs) error {
 		// a build failure of the generated program is a harness/toolchain problem or a tree that does not compile
 		return &gen.Inconclusive{Msg: fmt.Sprintf("go build failed: %v\n%s", err, out)}
 	}
-	run := exec.Command(filepath.Join(dir, "prog"))
+	ctx, cancel := context.WithTimeout(context.Background(), 20*time.Second)
+	defer cancel()
+	run := exec.CommandContext(ctx, filepath.Join(dir, "prog"))
 	var stdout, stderr bytes.Buffer
 	run.Stdout, run.Stderr = &stdout, &stderr
 	rerr := run.Run()
+	if ctx.Err() != nil {
+		// a hashing call of a few microseconds that has not returned after 20 s (in a process doing nothing else) never returns
+		return gen.Fail(c.Fn+"/program-hangs", "a program importing %v (%d rejected calls first) did not finish within 20 s: %s never returned", imports, c.Rejected, c.Fn)
+	}
 	all := stdout.String() + stderr.String()
 	var want []byte
 	switch c.Fn {
@@ -218,6 +245,9 @@ var c17 = gen.Register(&gen.Check[caseC17]{
 			}
 		}
 		c.Wrap = gen.Chance(t, "wrap", 1, 4)
+		if gen.Chance(t, "rejected", 1, 3) {
+			c.Rejected = rapid.SampledFrom([]int{1000, 70, 3, 300}).Draw(t, "nrej")
+		}
 		c.Msg = hex.EncodeToString(gen.Bytes(0, 40).Draw(t, "msg"))
 		dl := rapid.SampledFrom([]int{16, 1, 49, 255, 256, 300}).Draw(t, "dlen")
 		c.Dst = hex.EncodeToString(rapid.SliceOfN(rapid.Byte(), dl, dl).Draw(t, "dst"))
@@ -231,10 +261,11 @@ var c17 = gen.Register(&gen.Check[caseC17]{
 			{Fn: "HashToScalar", Msg: "616263", Dst: dst},
 			{Fn: "HashToScalar", Msg: "", Dst: hex.EncodeToString(bytes.Repeat([]byte{'L'}, 300))},
 			{Fn: "HashToGroup", Msg: "616263", Dst: dst, Wrap: true},
+			{Fn: "EncodeToGroup", Msg: "616263", Dst: dst, Rejected: 1000},
 			{Fn: "HashToScalar", Msg: "616263", Dst: dst, Wrap: true, Imports: []string{"fmt"}},
 		}
 	},
-	Required: []string{"imports:none", "sha256-not-linked-by-others", "registry-replaced"},
+	Required: []string{"imports:none", "sha256-not-linked-by-others", "registry-replaced", "after-rejected-calls"},
 	Run:      runC17,
 })
 
